@@ -668,13 +668,27 @@ def validation_loop_facts(P, f, vcall, frag_param, count_param):
     want = Poly.atom(f'arg{count_param}')
     guard = None
     for g in LL.guards():
-        if g.block is h and LL.trip(g) is not None and LL.trip(g) == want:
+        N_, rot_ = LL.count_for(g)
+        if N_ is not None and N_ == want and (not rot_ or LL.entry_positive(N_)):
             guard = g
     if guard is None:
         res['problems'].append('the loop does not run once per supplied fragment (no header guard with trip count num_fragments): '
                                + '; '.join(f'{g.lhs} {g.pred} {g.bound} -> {LL.trip(g)} iterations' for g in LL.guards())[:160])
         return res
     res['bound_exit'] = guard.exit_edge
+    res['skip_edges'] = set()
+    if LL.count_for(guard)[1]:
+        # a loop tested at its end sits behind a guard: the edge that goes round the loop when there is nothing to validate
+        from ..guards import upper_bound_at
+        from ..cfg import dominators, dominates
+        idom = dominators(f)
+        for b in f.order:
+            if b in body or len(b.succs) != 2 or not dominates(idom, b, h):
+                continue
+            for s_ in b.succs:
+                ub = upper_bound_at(P, f, f.params[count_param][1], b, (b, s_))
+                if ub is not None and ub <= 0:
+                    res['skip_edges'].add((b, s_))
     # the validated value is fragments[t] in iteration t
     arg = strip_ptr_casts(f, vcall.ops[-1] if vcall.callee != '@is_invalid_fragment' else vcall.ops[1])
     d = f.defs.get(arg)
@@ -768,6 +782,9 @@ def rule_validation_gates(ctx, P, r, ebad):
         v, info = good
         be = info['bound_exit']
         bad = [c for c in consumers if be not in dominating_edges(f, c.bb)]
+        if bad and info.get('skip_edges'):
+            free_ = reachable_from(f.entry, avoid_edges={be} | info['skip_edges'])
+            bad = [c for c in bad if c.bb in free_]
         if bad:
             r.fail(inst, func=f.name, sig=f'{bad[0].callee} not dominated by validation', loc=bad[0].loc,
                    msg=f'{bad[0].callee} at line {bad[0].line} can run before all headers were validated')
